@@ -113,13 +113,26 @@ func loadKnownFindings(path string) ([]knownFinding, []string, error) {
 			return nil, nil, fmt.Errorf("KNOWN_FINDINGS: unrecognised line %q", line)
 		}
 		rest := strings.TrimSpace(strings.TrimPrefix(line, "finding:"))
-		fs := strings.SplitN(rest, " ", 3)
-		if len(fs) < 2 || !strings.HasPrefix(fs[0], "property=") || !strings.HasPrefix(fs[1], "key=") {
+		// finding: property=<id> key="<rule>|<function>|<construct>" <what fails>     (the key may contain spaces, hence the quotes)
+		fs := strings.SplitN(rest, " ", 2)
+		if len(fs) < 2 || !strings.HasPrefix(fs[0], "property=") || !strings.HasPrefix(strings.TrimSpace(fs[1]), "key=") {
 			return nil, nil, fmt.Errorf("KNOWN_FINDINGS: malformed finding line %q", line)
 		}
-		kf := knownFinding{Prop: strings.TrimPrefix(fs[0], "property="), Key: strings.TrimPrefix(fs[1], "key=")}
-		if len(fs) == 3 {
-			kf.Text = fs[2]
+		kf := knownFinding{Prop: strings.TrimPrefix(fs[0], "property=")}
+		k := strings.TrimPrefix(strings.TrimSpace(fs[1]), "key=")
+		if strings.HasPrefix(k, `"`) {
+			end := strings.Index(k[1:], `"`)
+			if end < 0 {
+				return nil, nil, fmt.Errorf("KNOWN_FINDINGS: unterminated key in %q", line)
+			}
+			kf.Key = k[1 : 1+end]
+			kf.Text = strings.TrimSpace(k[2+end:])
+		} else {
+			parts := strings.SplitN(k, " ", 2)
+			kf.Key = parts[0]
+			if len(parts) == 2 {
+				kf.Text = parts[1]
+			}
 		}
 		out = append(out, kf)
 	}
